@@ -15,6 +15,7 @@ HASHER = re.compile(r"^(KSI_DataHasher_(add|reset|open|close|addImprint|addOctet
 
 def run(prog, chk):
     chain_list_table(prog, chk)
+    remembered_root_rule(prog, chk)
     chk.explanation = (
         "hashchain.c: (R3a) no error status stored into the status variable is overwritten before it can be observed; (R6) aggregateChain is evaluated abstractly for one link with every combination "
         "of link direction x calendar/aggregation x in-range / out-of-range level correction and start level: hashing order "
@@ -309,3 +310,76 @@ def chain_list_table(prog, chk):
             what = "expected KSI_OK, (chain, start level) = %s, the last output handed out, the others released once; source: status %s, calls %s, handed out %s, released %s" % (
                 want_calls, q.ret, calls, handed, freed)
         chk.ob("C03.list", inst, ok, what, loc=fn.loc(), fn=fn)
+
+
+def remembered_root_rule(prog, chk):
+    """The chain objects remember the output hash of their last aggregation.  The remembered value is a function of the fields handed to
+    the chain fold when it was computed (read from the source: the fields of the object among the arguments of the call whose result is
+    stored into ->outputHash).  Who-may-write rule over the whole library: a store into one of those fields of an object that already
+    exists (a parameter, not an object allocated in the same function) is accompanied by a store into ->outputHash of the same object
+    in the same function; otherwise the next aggregation of that object returns the root of values it no longer has."""
+    from ksirules.model import walk
+    chk.rule("C03.memo", "a store into a value the remembered output hash of a chain is computed from drops or replaces the remembered hash "
+                         "(who-may-write over all units)", floor=5)
+    deps = {}       # record name -> set of fields
+    for fn in prog.all_functions():
+        if fn.unit != "hashchain.c":
+            continue
+        for b, i, n in fn.nodes():
+            if n.get("k") != "asg":
+                continue
+            l = strip(n["l"])
+            if l.get("k") != "mem" or l.get("f") != "outputHash" or not l.get("arrow"):
+                continue
+            base = strip(l["b"])
+            if base.get("k") != "var":
+                continue
+            rec = (base.get("t") or "").replace("*", "").replace("const", "").strip()
+            # the value stored: a local filled by a fold call in this function
+            for b2, i2, c in fn.calls():
+                if not (c.get("fn") or "").startswith("KSI_HashChain_aggregate"):
+                    continue
+                for a in c["a"]:
+                    for m in walk(fn.deep(a)):
+                        if m.get("k") == "mem" and m.get("arrow") and strip(m["b"]).get("k") == "var" and strip(m["b"]).get("n") == base["n"] and m["f"] != "ctx":
+                            deps.setdefault(rec, set()).add(m["f"])
+    if set(deps) != {"KSI_AggregationHashChain", "KSI_CalendarHashChain"} or any(len(v) < 2 for v in deps.values()) or len(deps["KSI_AggregationHashChain"]) < 3:
+        raise AnalysisBroken("remembered output hash: the objects / fields it is computed from were not recognised: %s" % deps)
+    chk.extra["remembered_root_inputs"] = {k: sorted(v) for k, v in deps.items()}
+    n = 0
+    for fn in sorted(prog.all_functions(), key=lambda f: (f.unit, f.line)):
+        stores, drops, fresh = [], set(), set()
+        for b, i, c in fn.calls():
+            # objects made in this function have nothing remembered yet
+            if (c.get("fn") or "").endswith("_new") or c.get("fn") in ("KSI_malloc", "KSI_calloc"):
+                for a in c["a"]:
+                    a0 = strip(a)
+                    if isinstance(a0, dict) and a0.get("k") == "un" and a0["op"] == "&" and strip(a0["e"]).get("k") == "var":
+                        fresh.add(strip(a0["e"])["n"])
+        for b, i, m in fn.nodes():
+            if m.get("k") != "asg":
+                continue
+            l = strip(m["l"])
+            if l.get("k") != "mem" or not l.get("arrow") or strip(l["b"]).get("k") != "var":
+                continue
+            base = strip(l["b"])
+            rec = (base.get("t") or "").replace("*", "").replace("const", "").strip()
+            if rec not in deps:
+                continue
+            r0 = fn.resolve(strip(m["r"]))
+            if isinstance(r0, dict) and r0.get("k") == "call" and r0.get("fn") in ("KSI_malloc", "KSI_calloc"):
+                fresh.add(base["n"])
+            if l["f"] == "outputHash":
+                drops.add(base["n"])
+            elif l["f"] in deps[rec]:
+                stores.append((base["n"], l["f"], fn.elem_line(b, i), rec))
+        for (v, f, ln, rec) in stores:
+            if v in fresh or any(lc["n"] == v and lc.get("init_alloc") for lc in fn.locals):
+                continue
+            n += 1
+            chk.ob("C03.memo", "%s:%s->%s" % (fn.name, v, f), v in drops,
+                   "%s->%s of an existing %s is replaced%s" % (v, f, rec, "; the remembered output hash is dropped / replaced in the same function" if v in drops else
+                                                                " and the output hash remembered from an earlier aggregation stays: the next aggregation returns "
+                                                                "the root of the previous %s" % f), loc=fn.loc(ln), fn=fn)
+    if n < 5:
+        raise AnalysisBroken("C03.memo: only %d stores into the inputs of a remembered output hash found" % n)
